@@ -128,16 +128,19 @@ def identifyPeaksIdx {Î± : Type} [LT Î±] [LE Î±] [DecidableLT Î±] [DecidableLE Î
     (peakRanges.mapM fun r => Py.pyIndex bIdx r.1).bind fun excl =>
       (unique excl).mapM fun i => Py.pyIndex baselineRanges i
 
-/-- `(frequency[x0], frequency[x1] + df)` with `df = frequency[1] - frequency[0]`. -/
+/-- `(frequency[x0], frequency[x1] + df)`; `none` = `IndexError` -/
+def edgeOf (freq : List Rat) (df : Rat) (r : Nat Ã— Nat) : Option (Rat Ã— Rat) :=
+  match freq[r.1]?, freq[r.2]? with
+  | some a, some b => some (a, b + df)
+  | _, _ => none
+
+/-- `df = frequency[1] - frequency[0]`; `[(frequency[x[0]], frequency[x[1]] + df) for x in ranges]`
+    (nothing is looked up when there is no peak). -/
 def rangesToFreq (freq : List Rat) (rs : List (Nat Ã— Nat)) : Option (List (Rat Ã— Rat)) :=
   if rs.isEmpty then some []
   else
     match freq[0]?, freq[1]? with
-    | some f0, some f1 =>
-      let df := f1 - f0
-      rs.mapM fun r => match freq[r.1]?, freq[r.2]? with
-        | some a, some b => some (a, b + df)
-        | _, _ => none
+    | some f0, some f1 => rs.mapM (edgeOf freq (f1 - f0))
     | _, _ => none
 
 /-! ## the spectrum object -/
